@@ -515,7 +515,9 @@ class MQTTBaseProtocol(Protocol):
             self._pingReq.timer.stop()
             self._pingReq.timer = None
         if self._pingReq.alarm:
-            self._pingReq.alarm.cancel()
+            # the connection may be going down because this very alarm has just fired
+            if self._pingReq.alarm.active():
+                self._pingReq.alarm.cancel()
             self._pingReq.alarm = None
         self.doConnectionLost(reason)
         self.state = self.IDLE
